@@ -142,6 +142,118 @@ theorem valid_instances_irrelevant (reg : DataReg) (pre post : List (FlowInst Pr
     have := ih (fun a h => hpre a (by simp [h]))
     simp [compileInsts, hg, this]
 
+/-! ### redefined flows: a replaced definition is checked like any other -/
+
+theorem mapM_ok_iff {α ε : Type} (f : α → Except ε Unit) :
+    ∀ (xs : List α), (∃ ys, xs.mapM f = .ok ys) ↔ ∀ x ∈ xs, f x = .ok () := by
+  intro xs
+  induction xs with
+  | nil => simp [pure, Except.pure]
+  | cons x xs ih =>
+    cases hx : f x with
+    | error e => simp [List.mapM_cons, hx, bind, Except.bind]
+    | ok u =>
+      cases u
+      cases hm : xs.mapM f with
+      | error e =>
+        have : ¬ ∀ y ∈ xs, f y = .ok () := by
+          intro h; obtain ⟨ys, hys⟩ := ih.2 h; rw [hm] at hys; cases hys
+        simp [List.mapM_cons, hx, hm, bind, Except.bind, this]
+      | ok ys =>
+        have : ∀ y ∈ xs, f y = .ok () := ih.1 ⟨ys, hm⟩
+        simp [List.mapM_cons, hx, hm, bind, Except.bind, pure, Except.pure]
+        exact this
+
+/-- **Every create_flow row is compiled**: `parse_all_flows` succeeds iff *each* definition
+compiles — nothing is skipped because a later row defines the same flow again (the flow
+names do not occur in the statement at all: `FlowDef.compile` never looks at them). -/
+theorem compileFlows_ok_iff (reg : DataReg) (ds : List FlowDef) :
+    compileFlows reg ds = .ok () ↔ ∀ d ∈ ds, d.compile reg = .ok () := by
+  unfold compileFlows
+  rw [← mapM_ok_iff]
+  cases h : ds.mapM (FlowDef.compile reg) with
+  | error e => simp [Except.map]
+  | ok ys => simp [Except.map]
+
+/-- **A faulty definition that a later row redefines is still detected**: `g` (and `mid`,
+`post`) are arbitrary — in particular `g` may define exactly the flow names of `f`, so that
+`f` never reaches the output (see the example below). -/
+theorem redefined_later_detected (reg : DataReg) (pre mid post : List FlowDef) (f g : FlowDef)
+    (e : Fault) (hpre : ∀ d ∈ pre, d.compile reg = .ok ()) (hf : f.compile reg = .error e) :
+    compileFlows reg (pre ++ f :: (mid ++ g :: post)) = .error e :=
+  valid_prefix_irrelevant reg pre (mid ++ g :: post) f e hpre hf
+
+/-- **A faulty definition that redefines an earlier valid one is detected** (the earlier,
+valid definition `g` of the same flow does not stand in for it). -/
+theorem redefining_earlier_detected (reg : DataReg) (pre mid post : List FlowDef) (f g : FlowDef)
+    (e : Fault) (hpre : ∀ d ∈ pre, d.compile reg = .ok ()) (hg : g.compile reg = .ok ())
+    (hmid : ∀ d ∈ mid, d.compile reg = .ok ()) (hf : f.compile reg = .error e) :
+    compileFlows reg (pre ++ g :: (mid ++ f :: post)) = .error e := by
+  have := valid_prefix_irrelevant reg (pre ++ g :: mid) post f e
+    (by intro d hd; simp at hd; rcases hd with h | rfl | h
+        · exact hpre d h
+        · exact hg
+        · exact hmid d h) hf
+  simpa using this
+
+/-- needs `hg`: an earlier definition that is itself faulty stops the run with *its* fault
+(still an error — `compileFlows_ok_iff` — but not the later one's) -/
+theorem redefining_earlier_needs_valid_earlier :
+    ¬ (∀ (f g : FlowDef) (e : Fault), f.compile [] = .error e →
+        compileFlows [] ([] ++ g :: ([] ++ f :: [])) = .error e) := by
+  intro h
+  exact absurd (h { insts := [{ rows := [{ type := .beginBlock }] }] } { dataRowId := "x".toList }
+    .unterminated (by decide)) (by decide)
+
+/-- non-vacuity, both positions: flow `s` is defined by a sheet with an unterminated block
+and by a valid sheet.  Only the valid definition survives when it comes last — and the run
+is stopped all the same. -/
+example :
+    let bad : FlowDef := { insts := [{ name := "s".toList, rows := [{ type := .beginBlock }] }] }
+    let good : FlowDef := { insts := [{ name := "s".toList, rows := [{ type := .other }], refs := ["r".toList] }] }
+    let other : FlowDef := { insts := [{ name := "o".toList, rows := [{ type := .other }] }] }
+    compileFlows [] ([other] ++ bad :: ([] ++ good :: [])) = .error .unterminated ∧
+    compileFlows [] ([other] ++ good :: ([] ++ bad :: [])) = .error .unterminated ∧
+    survivors [other, bad, good] = [("o".toList, []), ("s".toList, ["r".toList])] ∧
+    compileFlows [] [other, good, good] = .ok () := by decide
+
+/-- the `flows` dict: the last definition of a name is the one that survives (its
+references are the ones that reach the UUID dictionary), at the place of the first -/
+theorem putFlow_lookup (n : Str) (refs : List Str) (acc : List (Str × List Str)) :
+    (putFlow n refs acc).lookup n = some refs := by
+  induction acc with
+  | nil => simp [putFlow, List.lookup]
+  | cons a acc ih =>
+    obtain ⟨n', r'⟩ := a
+    by_cases h : n' = n
+    · simp [putFlow, h, List.lookup]
+    · have h' : (n == n') = false := by simp [Ne.symm h]
+      simp [putFlow, h, List.lookup, h', ih]
+
+theorem putFlow_keys (n : Str) (refs : List Str) (acc : List (Str × List Str)) :
+    (putFlow n refs acc).map (·.1) = if n ∈ acc.map (·.1) then acc.map (·.1) else acc.map (·.1) ++ [n] := by
+  induction acc with
+  | nil => simp [putFlow]
+  | cons a acc ih =>
+    obtain ⟨n', r'⟩ := a
+    by_cases h : n' = n
+    · simp [putFlow, h]
+    · have h2 : ¬ n = n' := Ne.symm h
+      by_cases hm : n ∈ acc.map (·.1)
+      · simp [putFlow, h, h2, ih, hm]
+      · simp [putFlow, h, h2, ih, hm]
+
+/-- a name that only a *replaced* definition refers to is not known when the triggers are
+checked: a trigger for it stops the run (what the code does; `draft only` below), whereas
+the surviving definition's references are known. -/
+example :
+    let draft : FlowDef := { insts := [{ name := "s".toList, rows := [{ type := .other }], refs := ["draft only".toList] }] }
+    let final : FlowDef := { insts := [{ name := "s".toList, rows := [{ type := .other }], refs := ["kept".toList] }] }
+    createFlows (fun _ => ()) { hasIndex := true, flows := [draft, final], triggers := ["draft only".toList] } =
+      .error (.triggerUnknownFlow "draft only".toList) ∧
+    createFlows (fun _ => ()) { hasIndex := true, flows := [draft, final], triggers := ["kept".toList, "s".toList] } = .ok () := by
+  decide
+
 /-! ### block structure -/
 
 /-- well-nested row-type sequences -/
